@@ -8,6 +8,7 @@ import (
 	"io"
 	"os"
 	"reflect"
+	"regexp"
 	"strings"
 	"time"
 
@@ -155,8 +156,8 @@ func runParseString(sel int, data []byte) textResult {
 	p, replaced := psPick(sel)
 	var v reflect.Value
 	var err error
-	pi, hung := guard(func() { v, err = parse.String(string(data), p.t) })
 	what := fmt.Sprintf("parse.String(%q, %s)", clipBytes(data), p.name)
+	pi, hung := guard(what, func() { v, err = parse.String(string(data), p.t) })
 	if hung {
 		return textResult{viol: hangViolation(what)}
 	}
@@ -208,7 +209,7 @@ func runSplitters(sel int, data []byte) textResult {
 	var err error
 	var n int
 	var typeOK = true
-	pi, hung := guard(func() {
+	pi, hung := guard(fmt.Sprintf("parse.%s(%q)", splitterNames[sel], clipBytes(data)), func() {
 		switch sel {
 		case 0:
 			var r []string
@@ -316,7 +317,7 @@ func runCaseDecoders(sel int, data []byte) textResult {
 	var words caseconversion.DecodedIdentifier
 	var err error
 	stage := d.name
-	pi, hung := guard(func() {
+	pi, hung := guard(fmt.Sprintf("%s(%q)", d.name, clipBytes(data)), func() {
 		words, err = d.dec(string(data))
 		if err != nil {
 			return
@@ -349,7 +350,7 @@ func runCaseDecoders(sel int, data []byte) textResult {
 func runParsingDuration(sel int, data []byte) textResult {
 	var errDirect, errJSON, errField error
 	mode := sel % 3
-	pi, hung := guard(func() {
+	pi, hung := guard(fmt.Sprintf("ParsingDuration unmarshal mode %d (%q)", mode, clipBytes(data)), func() {
 		switch mode {
 		case 0:
 			var p jsontypes.ParsingDuration
@@ -391,13 +392,22 @@ func runParsingDuration(sel int, data []byte) textResult {
 
 // ---------------------------------------------------------------- file decoders
 
+// cueRunaway matches a CUE multiplication by a number of nine or more digits:
+// the evaluator then builds a string / list of that size.  Only consulted once
+// the memory blow-up is listed as a known finding, so that the search can go on
+// without the watchdog ending the process.
+var cueRunaway = regexp.MustCompile(`\*\s*[0-9_]{9,}|[0-9_]{9,}\s*\*`)
+
 func runDecoder(name string, dec dials.Decoder) func(sel int, data []byte) textResult {
 	return func(sel int, data []byte) textResult {
 		ft := decoderTypes[sel%len(decoderTypes)]
+		if name == "Cue" && knownDefect(keyMemory) && cueRunaway.Match(data) {
+			return textResult{labels: []string{"cfg:" + ft.name, "known-runaway-input-skipped"}}
+		}
 		var v reflect.Value
 		var err error
-		pi, hung := guard(func() { v, err = dec.Decode(bytes.NewReader(data), dialsType(ft.pt)) })
 		what := fmt.Sprintf("%s decoder on %s with input %q", name, ft.name, clipBytes(data))
+		pi, hung := guard(what, func() { v, err = dec.Decode(bytes.NewReader(data), dialsType(ft.pt)) })
 		if hung {
 			return textResult{viol: hangViolation(what)}
 		}
@@ -517,8 +527,8 @@ func runEnvValue(sel int, data []byte) textResult {
 	}
 	var v reflect.Value
 	var err error
-	pi, hung := guard(func() { v, err = (&env.Source{}).Value(context.Background(), dialsType(envType.pt)) })
 	what := fmt.Sprintf("env source on cfgEnv with %s=%q", strings.Join(names, ","), clipBytes(data))
+	pi, hung := guard(what, func() { v, err = (&env.Source{}).Value(context.Background(), dialsType(envType.pt)) })
 	if hung {
 		return textResult{viol: hangViolation(what)}
 	}
@@ -552,7 +562,7 @@ func runFlagArgs(sel int, data []byte) textResult {
 	var v reflect.Value
 	var err error
 	stage := "NewSetWithArgs"
-	pi, hung := guard(func() {
+	pi, hung := guard(fmt.Sprintf("flag source on cfgFlag with args %q", clipArgs(args)), func() {
 		var s *flag.Set
 		s, err = flag.NewSetWithArgs(flag.DefaultFlagNameConfig(), reflect.New(flagType.t).Interface(), args)
 		if err != nil {
@@ -588,7 +598,7 @@ func runPflagArgs(sel int, data []byte) textResult {
 	var v reflect.Value
 	var err error
 	stage := "NewSetWithArgs"
-	pi, hung := guard(func() {
+	pi, hung := guard(fmt.Sprintf("pflag source on cfgFlag with args %q", clipArgs(args)), func() {
 		var s *pflag.Set
 		s, err = pflag.NewSetWithArgs(pflag.DefaultFlagNameConfig(), reflect.New(flagType.t).Interface(), args)
 		if err != nil {
